@@ -393,9 +393,11 @@ func (w *world) checkSurvivors() {
 			continue
 		}
 		if p.foreign {
+			// Whether a program with other build metadata is refused is not something
+			// the statement says: what it does to the file is judged (well-formed, the
+			// header unchanged, nobody else made to fail), not whether it got in.
 			if p.fileOpen() {
-				w.fail("foreign-opened", "a program with other build metadata opened the counter file of this one")
-				return
+				w.s.Probe("foreign-opener-got-in")
 			}
 			continue
 		}
